@@ -600,7 +600,7 @@ class modict(odict):
         If last is True pop in LIFO order.
         If last is False pop in FIFO order.
         """
-        key, val = super(modict, self).popitem(last=last)
+        key, val = self.poplistitem(last=last)
         return (key, val[index])
 
     def poplistitem(self, last=True):
@@ -609,7 +609,10 @@ class modict(odict):
         If last is True pop in LIFO order.
         If last is False pop in FIFO order.
         """
-        return (super(modict, self).popitem(last=last))
+        if not self._keys:
+            raise KeyError('Empty modict.')
+        key = self._keys[-1 if last else 0]
+        return (key, super(modict, self).pop(key))
 
     def fromkeys(self, seq, default=None):
         """
